@@ -79,11 +79,15 @@ class GeoReference(object):
         tags.tagtype[TIFF_MODELTIEPOINTTAG] = TiffTags.DOUBLE
 
         model_type = 2 if self.srs.is_latlong else 1
+        epsg_num = get_epsg_num(self.srs.srs_code)
+        if epsg_num is None or not 0 < epsg_num < 65536:
+            # no EPSG code that fits into a (SHORT) GeoKey, e.g. CRS:84 or EPSG:900913
+            epsg_num = 32767  # user-defined
         tags[TIFF_GEOKEYDIRECTORYTAG] = (
             1, 1, 0, 3,  # {KeyDirectoryVersion, KeyRevision, MinorRevision, NumberOfKeys}
             1024, 0, 1, model_type,  # 1 projected, 2 geographic (lat/long)
             1025, 0, 1, 1,  # 1 RasterIsArea, 2 RasterIsPoint
-            3072, 0, 1, get_epsg_num(self.srs.srs_code),
+            3072, 0, 1, epsg_num,
         )
         tags.tagtype[TIFF_GEOKEYDIRECTORYTAG] = TiffTags.SHORT
         return tags
